@@ -181,9 +181,17 @@ def run(ctx):
         def call(self, f, bi, t, args, it):
             p = t['callee'].get('path') or ''
             sp = short(p)
+            if sp in ('extension', 'and_then', 'to_str') and ('Path' in p or 'Option' in p or 'OsStr' in p):
+                # `Path::new(input).extension()[.and_then(OsStr::to_str)]`: the optional extension of the input name
+                e = f.call_expr(t, bi)
+                if any(y[0] == 'call' and short(y[1]) == 'extension' for y in facts.walk(e)) and any(y[0] == 'field' and y[2] == 'input' for y in facts.walk(e)):
+                    return ('sym', 'extopt', 'std::option::Option')
             if sp in ('ends_with', 'eq', 'ne'):
                 e = f.call_expr(t, bi)
                 consts = [x[1] for a in e[2] for x in facts.walk(a) if x[0] == 'const' and isinstance(x[1], str)]
+                # string literals compared as `str` (not `&String`): the value sits in the type slot, `&str:"json"`
+                consts += [x[2].split(':', 1)[1].strip('"') for a in e[2] for x in facts.walk(a)
+                           if x[0] == 'const' and x[1] is None and isinstance(x[2], str) and x[2].startswith('&str:"')]
                 on_input = any(x[0] == 'field' and x[2] == 'input' for a in e[2] for x in facts.walk(a))
                 if sp == 'ends_with' and on_input and consts and consts[-1] in ('.json', '.efg'):
                     return ('b', 'ext' + consts[-1])
@@ -203,6 +211,12 @@ def run(ctx):
                 if sp in ('eq', 'ne') and on_input and via_ext and consts and consts[-1] in ('json', 'efg'):
                     v_ = ('b', 'ext.' + consts[-1])
                     return v_ if sp == 'eq' else ('not', v_)
+            return None
+
+        def enter(self, f, bi, st, tokens, it):
+            # a name without an extension ends in neither ".json" nor ".efg"
+            if tokens.get('extopt') == 'None' and ('ext.json' not in tokens or 'ext.efg' not in tokens):
+                return dict(tokens, **{'ext.json': False, 'ext.efg': False})
             return None
 
         def sink(self, f, bi, t, it):
